@@ -81,6 +81,8 @@ type pkgInfo struct {
 	atomicName map[*ast.File]string // local name of sync/atomic per file
 	fileOf     map[*ast.FuncDecl]*ast.File
 	reach      map[funcKey]bool     // touches the word / a marker, directly or through resolvable calls
+	writer     map[funcKey]bool     // writes the word, directly or through resolvable calls
+	writerName map[string]bool      // names of those functions
 	writes     map[token.Pos]string // every atomic write of the word in the package
 	loads      []token.Pos
 	statusVals []int64
@@ -172,7 +174,8 @@ func (p *pkgInfo) statusOp(file *ast.File, call *ast.CallExpr) (kind string, arg
 
 func loadPackage(dir string, must []string) *pkgInfo {
 	p := &pkgInfo{funcs: map[funcKey]*ast.FuncDecl{}, consts: map[string]int64{}, atomicName: map[*ast.File]string{},
-		fileOf: map[*ast.FuncDecl]*ast.File{}, reach: map[funcKey]bool{}, writes: map[token.Pos]string{}}
+		fileOf: map[*ast.FuncDecl]*ast.File{}, reach: map[funcKey]bool{}, writes: map[token.Pos]string{},
+		writer: map[funcKey]bool{}, writerName: map[string]bool{}}
 	names, err := filepath.Glob(filepath.Join(dir, "*.go"))
 	if err != nil || len(names) == 0 {
 		fail(token.NoPos, "no Go files in %s", dir)
@@ -237,6 +240,9 @@ func loadPackage(dir string, must []string) *pkgInfo {
 			case *ast.CallExpr:
 				if kind, _ := p.statusOp(file, x); kind != "" {
 					direct[k] = true
+					if kind != "load" {
+						p.writer[k] = true
+					}
 				}
 				if isWorkCall(x) {
 					direct[k] = true
@@ -258,17 +264,20 @@ func loadPackage(dir string, must []string) *pkgInfo {
 	for changed := true; changed; {
 		changed = false
 		for k, cs := range callees {
-			if p.reach[k] {
-				continue
-			}
 			for _, c := range cs {
-				if p.reach[c] {
+				if p.reach[c] && !p.reach[k] {
 					p.reach[k] = true
 					changed = true
-					break
+				}
+				if p.writer[c] && !p.writer[k] {
+					p.writer[k] = true
+					changed = true
 				}
 			}
 		}
+	}
+	for k := range p.writer {
+		p.writerName[k.name] = true
 	}
 	vals := map[int64]bool{0: true}
 	for name, v := range p.consts {
@@ -478,9 +487,11 @@ const (
 )
 
 type val struct {
-	k   valKind
-	n   int64
-	lit *ast.FuncLit
+	k    valKind
+	n    int64
+	lit  *ast.FuncLit
+	env  int           // closure: id of the environment it was written in
+	decl *ast.FuncDecl // closure: the enclosing declaration
 }
 
 var unknown = val{k: kUnknown}
@@ -554,13 +565,16 @@ type activation struct {
 
 type state struct {
 	envs   []map[string]val
+	envIDs []int // a serial number per environment, so that a closure can find the one it captured
+	nextID int
 	acts   []activation
 	events []event
 	ctrl   ctrlKind
 }
 
 func (st *state) clone() *state {
-	c := &state{ctrl: st.ctrl}
+	c := &state{ctrl: st.ctrl, nextID: st.nextID}
+	c.envIDs = append([]int(nil), st.envIDs...)
 	c.envs = make([]map[string]val, len(st.envs))
 	for i, m := range st.envs {
 		cm := make(map[string]val, len(m))
@@ -694,18 +708,19 @@ func fieldNames(fl *ast.FieldList) (names []string, types []ast.Expr) {
 
 // callBody runs a function body as a new activation. For a declaration a fresh
 // environment is used; a function literal runs in the environment it was written in.
-func (x *executor) callBody(st *state, decl *ast.FuncDecl, typ *ast.FuncType, body *ast.BlockStmt, args []val, sameEnv bool, pos token.Pos) []res {
+func (x *executor) callBody(st *state, decl *ast.FuncDecl, typ *ast.FuncType, body *ast.BlockStmt, args []val, useEnv int, pos token.Pos) []res {
 	x.depth++
 	if x.depth > 40 {
 		fail(pos, "inlining too deep (recursion?)")
 	}
 	defer func() { x.depth-- }()
 	st = st.clone()
-	envIdx := 0
-	if sameEnv {
-		envIdx = st.act().env
-	} else {
+	sameEnv := useEnv >= 0
+	envIdx := useEnv
+	if !sameEnv {
 		st.envs = append(st.envs, map[string]val{})
+		st.nextID++
+		st.envIDs = append(st.envIDs, st.nextID)
 		envIdx = len(st.envs) - 1
 	}
 	act := activation{decl: decl, env: envIdx}
@@ -780,6 +795,7 @@ func (x *executor) callBody(st *state, decl *ast.FuncDecl, typ *ast.FuncType, bo
 			s2.acts = s2.acts[:depthActs-1]
 			if !sameEnv {
 				s2.envs = s2.envs[:envIdx]
+				s2.envIDs = s2.envIDs[:envIdx]
 			}
 			out = append(out, res{s2, vs})
 		}
@@ -1155,6 +1171,9 @@ func (x *executor) evalExpr(st *state, e ast.Expr) []res {
 		if v, ok := st.env()[t.Name]; ok {
 			return one(st, v)
 		}
+		if k := (funcKey{"", t.Name}); x.p.writer[k] {
+			fail(t.Pos(), "%s, which writes the status word, is used as a function value: not understood", t.Name)
+		}
 		if n, ok := x.p.consts[t.Name]; ok {
 			return one(st, val{k: kInt, n: n})
 		}
@@ -1162,10 +1181,15 @@ func (x *executor) evalExpr(st *state, e ast.Expr) []res {
 	case *ast.ParenExpr:
 		return x.evalExpr(st, t.X)
 	case *ast.FuncLit:
-		return one(st, val{k: kClosure, lit: t})
+		return one(st, val{k: kClosure, lit: t, env: st.envIDs[st.act().env], decl: st.act().decl})
 	case *ast.SelectorExpr:
 		if t.Sel.Name == statusField {
 			fail(t.Pos(), "plain (non-atomic) access to the status field")
+		}
+		if x.p.writerName[t.Sel.Name] {
+			if _, isPkg := t.X.(*ast.Ident); isPkg {
+				fail(t.Pos(), "method value %s of a function that writes the status word: not understood", t.Sel.Name)
+			}
 		}
 		var out []res
 		for _, r := range x.evalExpr(st, t.X) {
@@ -1348,7 +1372,7 @@ func (x *executor) evalCall(st *state, call *ast.CallExpr) []res {
 	if lit, ok := call.Fun.(*ast.FuncLit); ok {
 		var out []res
 		for _, r := range x.evalExprs(st, call.Args) {
-			out = append(out, x.callBody(r.st, r.st.act().decl, lit.Type, lit.Body, r.vs, true, call.Pos())...)
+			out = append(out, x.callBody(r.st, r.st.act().decl, lit.Type, lit.Body, r.vs, r.st.act().env, call.Pos())...)
 		}
 		return out
 	}
@@ -1363,7 +1387,7 @@ func (x *executor) evalCall(st *state, call *ast.CallExpr) []res {
 				if len(call.Args) == 1 && len(args) != 1 {
 					args = nil
 				}
-				out = append(out, x.callBody(r.st, fd, fd.Type, fd.Body, args, false, call.Pos())...)
+				out = append(out, x.callBody(r.st, fd, fd.Type, fd.Body, args, -1, call.Pos())...)
 			}
 			return out
 		}
@@ -1374,13 +1398,44 @@ func (x *executor) evalCall(st *state, call *ast.CallExpr) []res {
 		}
 		return x.opaque(st, call, nres)
 	}
-	// 5. a local holding a function literal
+	// 5. a local that, on this path, holds a function literal written in a function we are
+	//    inside of: its body is visible, so it is run like any other call, in the
+	//    environment it captured.  (The binding is the one in force at this point of the
+	//    path: a variable reassigned in a loop is unknown after the loop's havoc.)
 	if id, ok := call.Fun.(*ast.Ident); ok {
 		if v, ok := st.env()[id.Name]; ok && v.k == kClosure {
-			if x.p.touches(v.lit.Body, file, typ, name) {
-				fail(call.Pos(), "call of a function value that touches the status word: not understood")
+			envIdx := -1
+			for i, eid := range st.envIDs {
+				if eid == v.env {
+					envIdx = i
+				}
+			}
+			if envIdx >= 0 {
+				var out []res
+				for _, r := range x.evalExprs(st, call.Args) {
+					args := r.vs
+					if len(call.Args) == 1 && len(args) != 1 {
+						args = nil
+					}
+					out = append(out, x.callBody(r.st, v.decl, v.lit.Type, v.lit.Body, args, envIdx, call.Pos())...)
+				}
+				return out
+			}
+			dt, dn := recvTypeName(v.decl)
+			if x.p.touches(v.lit.Body, x.p.fileOf[v.decl], dt, dn) {
+				fail(call.Pos(), "call of a function literal that outlived the function it was written in and touches the status word or runs node functions: not understood")
 			}
 		}
+	}
+	// 6. anything else -- a parameter, a field, an interface method, a method of something
+	//    other than the receiver.  The target is unknown.  It cannot WRITE the word: every
+	//    atomic write of the word in the package, inside function literals too, must be
+	//    reached by this very execution of the two entry points (checked in main), plain
+	//    writes are rejected package-wide, and the protocol functions are not handed out
+	//    as values (checked in evalExpr).  What is left is a call, by name, of one of the
+	//    functions that write the word on a receiver we cannot identify: refuse.
+	if recv, callee := calleeName(call); recv != nil && x.p.writerName[callee] {
+		fail(call.Pos(), "call of %s -- a function that writes the status word -- on a receiver the extractor cannot identify with the graph", callee)
 	}
 	return x.opaque(st, call, 1)
 }
@@ -1402,6 +1457,14 @@ func (x *executor) opaque(st *state, call *ast.CallExpr, nres int) []res {
 	for _, a := range call.Args {
 		if lit, ok := a.(*ast.FuncLit); ok && x.p.touches(lit.Body, x.file(st), typ, name) {
 			fail(a.Pos(), "a function literal that touches the status word is passed as an argument: not understood")
+		}
+		if id, ok := a.(*ast.Ident); ok {
+			if v, ok := st.env()[id.Name]; ok && v.k == kClosure {
+				dt, dn := recvTypeName(v.decl)
+				if x.p.touches(v.lit.Body, x.p.fileOf[v.decl], dt, dn) {
+					fail(a.Pos(), "a function literal that touches the status word or runs node functions is passed to a function the extractor does not follow: not understood")
+				}
+			}
 		}
 	}
 	var out []res
@@ -1740,14 +1803,14 @@ func extract(p *pkgInfo, x *executor, recvType, fn string) ([]action, int, int) 
 	if fd == nil || fd.Body == nil {
 		fail(token.NoPos, "method %s.%s not found", recvType, fn)
 	}
-	st := &state{envs: []map[string]val{{}}, acts: []activation{{decl: fd, env: 0}}}
+	st := &state{envs: []map[string]val{{}}, envIDs: []int{0}, acts: []activation{{decl: fd, env: 0}}}
 	// run the body as a call so that deferred calls and named results are handled
 	var args []val
 	names, _ := fieldNames(fd.Type.Params)
 	for range names {
 		args = append(args, unknown)
 	}
-	rs := x.callBody(st, fd, fd.Type, fd.Body, args, false, fd.Pos())
+	rs := x.callBody(st, fd, fd.Type, fd.Body, args, -1, fd.Pos())
 	seen := map[string]bool{}
 	var touching []path
 	untouched := 0
